@@ -1170,9 +1170,9 @@ pub fn explore(run: &Run, h: &Harness, xc: &ExploreCfg, tag: &str) -> ExploreSta
       run.nontrivial.insert(hash_of(&(h, out.outcome, out.viol.len())));
     }
     let sched: Vec<u8> = out.choices.iter().map(|c| c.chosen).collect();
-    if out.cap_hit {
+    if let (true, Some(prop)) = (out.cap_hit, (xc.prop_of)("hang")) {
       run.violation(Violation {
-        property: "C07".into(),
+        property: prop.into(),
         signature: format!("{}:hang:event-cap", tag),
         message: format!("[{} {:?}] no progress: {} events without all threads finishing under a fair schedule", progs_str(&h.progs), (h.fl, h.shape), EVENT_CAP),
         replay: json!({"engine": "sched", "tag": tag, "harness": h, "schedule": sched, "hb": xc.hb, "drain": xc.drain}),
